@@ -561,6 +561,31 @@ def blindOp (toks : List String) : Option String :=
     | _, _, _, _, _ => none
   | _ => none
 
+/-- predicate verifiers that share a response with the signature proof: the recomputed commitments the
+real verifier hashes, over opaque bases; the shared response is the model's sorted lookup -/
+def recommitOp (toks : List String) : Option String :=
+  open AC.Sigma AC.Verify in
+  let lin := fun (bs : List String) (v : Lin) =>
+    "@lin(" ++ ";".intercalate ((bs.zip (Lin.coords bs.length v)).map fun (b, k) => b ++ ":" ++ frHex k) ++ ")"
+  match toks with
+  | ["cm.recommit", n, offset, rvl, proof, claim, c, sb, m, b, cc] =>
+    match n.toNat?, offset.toNat?, natsOf? rvl, listOf? frOf? proof, claim.toNat?, frOf? c, frOf? sb with
+    | some n, some off, some rvl, some proof, some claim, some c, some sb =>
+      some (match linkedResponse n off rvl proof claim with
+        | none => "no-linked-response"
+        | some sm => lin [m, b, cc] (commitmentRecommit (Lin.unit 3 0) (Lin.unit 3 1) (Lin.unit 3 2) c sm sb))
+    | _, _, _, _, _, _, _ => none
+  | ["eg.recommit", n, offset, rvl, proof, claim, c, sb, g, m, k, c1, c2] =>
+    match n.toNat?, offset.toNat?, natsOf? rvl, listOf? frOf? proof, claim.toNat?, frOf? c, frOf? sb with
+    | some n, some off, some rvl, some proof, some claim, some c, some sb =>
+      some (match linkedResponse n off rvl proof claim with
+        | none => "no-linked-response"
+        | some sm =>
+          let r := elgamalRecommit (Lin.unit 5 0) (Lin.unit 5 1) (Lin.unit 5 2) (Lin.unit 5 3) (Lin.unit 5 4) c sm sb
+          lin [g, m, k, c1, c2] r.1 ++ " " ++ lin [g, m, k, c1, c2] r.2)
+    | _, _, _, _, _, _, _ => none
+  | _ => none
+
 def answer (d : DState) (line : String) : DState × String :=
   let toks := (line.trimAscii.toString.splitOn " ").filter (· ≠ "")
   match claimsOp toks with
@@ -597,6 +622,9 @@ def answer (d : DState) (line : String) : DState × String :=
   | some r => (d, r)
   | none =>
   match blindOp toks with
+  | some r => (d, r)
+  | none =>
+  match recommitOp toks with
   | some r => (d, r)
   | none =>
   match regOp d toks with
